@@ -45,6 +45,9 @@ type Case struct {
 	Strip       bool     `json:"strip"`
 	Exact       bool     `json:"exact"`
 	API         string   `json:"api"` // g1 (generic per command), gN (generic SendCommands), n1, nN
+	// RealTime: run on the wall clock without a bubble (ReadDelay 0 spins and cannot run on the
+	// virtual clock).
+	RealTime bool `json:"real_time,omitempty"`
 }
 
 var defaultPrompt = regexp.MustCompile(`(?im)^[a-z\d.\-@()/:]{1,48}[#>$]\s*$`)
@@ -201,6 +204,10 @@ func (c *Case) budget() time.Duration {
 		for _, l := range cm.Out {
 			total += len(l.Raw) + 2
 		}
+	}
+
+	if c.RealTime {
+		return 20 * time.Second
 	}
 
 	return time.Duration(total) * 25 * time.Duration(c.ReadDelayNS)
@@ -469,3 +476,28 @@ func classify(c Case, pipe *sim.Pipe) ev.Verdict {
 var cliProp = &ev.Prop[Case]{
 	ID: "C01", Name: "cli", Gen: gen, Run: run, Bubble: true,
 }
+
+// genRT: the ReadDelay = 0 configuration (the one the repository's own tests use), real time.
+func genRT(t *rapid.T) Case {
+	c := gen(t)
+	c.RealTime = true
+	c.ReadDelayNS = 0
+	c.DelaysNS = nil
+
+	if rapid.Bool().Draw(t, "rtDelays") {
+		for i := 0; i < rapid.IntRange(1, 4).Draw(t, "nRtDelays"); i++ {
+			c.DelaysNS = append(c.DelaysNS, int64(rapid.SampledFrom([]int{0, 0, 20, 150}).Draw(t, "rtDelayUS"))*1000)
+		}
+	}
+
+	// keep the wall-clock cost bounded: at most 12 output lines per command
+	for i := range c.Cmds {
+		if len(c.Cmds[i].Out) > 12 {
+			c.Cmds[i].Out = c.Cmds[i].Out[:12]
+		}
+	}
+
+	return c
+}
+
+var cliRTProp = &ev.Prop[Case]{ID: "C01", Name: "cli-rt", Gen: genRT, Run: run}
